@@ -75,9 +75,6 @@ def worker_main(args):
         pass
 
     def one(rnd):
-        if time.time() > deadline:
-            stats["budget_exhausted"] = True
-            return
         case = mod.generate(rnd, tier)
         stats["generated"] += 1
         res = mod.check(case, ctx)
@@ -100,19 +97,32 @@ def worker_main(args):
             state["last_fail"] = (case, res.detail)
             raise Viol()
 
-    test = settings(max_examples=max(1, ncases), database=None, deadline=None, derandomize=False,
-                    suppress_health_check=list(HealthCheck), phases=[Phase.generate, Phase.shrink],
-                    report_multiple_bugs=False, print_blob=False)(
-        hseed(seed * 1000003 + widx)(given(st.randoms(use_true_random=False))(one)))
-    try:
-        test()
-    except Viol:
-        stats["violation"] = {"case": state["last_fail"][0], "detail": state["last_fail"][1]}
-    except BaseException as e:  # harness error: report, do not hide
-        if state["last_fail"] is not None:
+    # batches: the wall-clock safety net is only consulted *between* Hypothesis runs, never inside one
+    batch = int(getattr(mod, "BATCH", 25))
+    done = 0
+    bidx = 0
+    while done < ncases:
+        if time.time() > deadline:
+            stats["budget_exhausted"] = True
+            break
+        n = min(batch, ncases - done)
+        test = settings(max_examples=n, database=None, deadline=None, derandomize=False,
+                        suppress_health_check=list(HealthCheck), phases=[Phase.generate, Phase.shrink],
+                        report_multiple_bugs=False, print_blob=False)(
+            hseed((seed * 1000003 + widx) * 100003 + bidx)(given(st.randoms(use_true_random=False))(one)))
+        bidx += 1
+        done += n
+        try:
+            test()
+        except Viol:
             stats["violation"] = {"case": state["last_fail"][0], "detail": state["last_fail"][1]}
-        else:
-            stats["errors"].append("".join(traceback.format_exception(type(e), e, e.__traceback__))[-3000:])
+            break
+        except BaseException as e:  # harness error: report, do not hide
+            if state["last_fail"] is not None:
+                stats["violation"] = {"case": state["last_fail"][0], "detail": state["last_fail"][1]}
+            else:
+                stats["errors"].append("".join(traceback.format_exception(type(e), e, e.__traceback__))[-3000:])
+            break
     stats["nt"] = sorted(stats["nt"])
     with open(outpath, "w") as f:
         json.dump(stats, f)
@@ -245,6 +255,23 @@ def run_property(modname, tier, seed, replay=None, jobs=None):
         if e is not None:
             excluded += 1
             continue
+        if getattr(mod, "SHRINK", "script") == "script" and isinstance(case, dict) and "cmds" in case:
+            from . import shrink as _shr
+
+            def still(c, _e=None):
+                r = mod.check(c, ctx)
+                return r.status == "violation" and match_known(mod, known, c, r) is None
+            try:
+                case = _shr.shrink(case, still)
+            except Exception:
+                pass
+            again = replay_case(mod, case, ctx, 1)
+        elif hasattr(mod, "shrink"):
+            try:
+                case = mod.shrink(case, ctx)
+            except Exception:
+                pass
+            again = replay_case(mod, case, ctx, 1)
         name = "found_%s_%s.json" % (tier, _h(json.dumps(case, sort_keys=True)))
         outdir = os.path.join(ROOT, "replays", pid) if os.environ.get("VERIF_KEEP_FOUND") else \
             os.path.join(ROOT, ".work", "found", pid)
